@@ -43,8 +43,9 @@ pub struct StructD {
 }
 
 impl FieldD {
+    /// the database name: the `rename`, else the Rust identifier without a raw-identifier prefix (`r#type` -> `type`)
     fn col(&self) -> &str {
-        self.rename.as_deref().unwrap_or(&self.rust)
+        self.rename.as_deref().unwrap_or(self.rust.strip_prefix("r#").unwrap_or(&self.rust))
     }
     fn default(&self) -> Leaf {
         if self.opt {
@@ -448,6 +449,10 @@ pub fn generate(rng: &mut Rng, tier: Tier, emit: &mut dyn FnMut(String)) {
         let desc = desc_tokens(d);
         let (sop, dop) = if d.kind == "value" { ("sv", "dv") } else { ("sr", "dr") };
         let n_opt = all_leaves(d).iter().filter(|(f, _)| f.opt).count();
+        if info.is_empty.is_some() {
+            let vals = gen_vals(rng, d, None);
+            emit(format!("ie {} ; ; {}", desc, toks(&vals)).trim_end().to_owned());
+        }
         let variants = db_variants(rng, d, tier);
         if d.kind == "value" {
             // a CQL type that is not a UDT
@@ -1069,6 +1074,20 @@ pub fn run(case: &str, ctx: &mut Ctx) -> String {
                 }
             }
         };
+    }
+    if op == "ie" {
+        let Some(f) = info.is_empty else { return "bad-case".to_owned() };
+        if vals.len() != lv.len() {
+            return "bad-case".to_owned();
+        }
+        let got = f(&vals);
+        // `is_empty()` is consulted by the session to decide whether values are sent at all: it must be true exactly
+        // when the struct has no unskipped field
+        let expected = d.fields.iter().all(|f| f.skip);
+        if got != expected {
+            ctx.fail(format!("is_empty() = {} for a struct with {} unskipped field(s)", got, d.fields.iter().filter(|f| !f.skip).count()));
+        }
+        return got.to_string();
     }
     match op {
         "sv" | "sr" => {
